@@ -118,5 +118,10 @@ func (server *Server) SRem(conn *redis.Conn, key string, members []string) (*red
 	if set == nil {
 		set = NewSet()
 	}
-	return redis.NewIntegerMessage(set.Rem(members)), nil
+	removedMembers := set.Rem(members)
+	if len(set.Members()) == 0 {
+		// A set that has lost its last member no longer exists.
+		db.RemoveRecord(key)
+	}
+	return redis.NewIntegerMessage(removedMembers), nil
 }
